@@ -22,13 +22,20 @@ _Timeout = HardTimeout
 
 @contextlib.contextmanager
 def time_limit(seconds: float):
+    """Limit on the CPU time the guarded block may use (ITIMER_PROF: not fooled by a loaded or stalled machine), with a
+    wall-clock backstop of 15x for code that blocks instead of spinning."""
+
     def handler(signum, frame):
         raise _Timeout(f"exceeded {seconds}s")
 
-    old = signal.signal(signal.SIGALRM, handler)
-    signal.setitimer(signal.ITIMER_REAL, seconds, 1.0)  # keeps firing every second should the first exception get lost
+    old_prof = signal.signal(signal.SIGPROF, handler)
+    old_alrm = signal.signal(signal.SIGALRM, handler)
+    signal.setitimer(signal.ITIMER_PROF, seconds, 1.0)  # keeps firing every second should the first exception get lost
+    signal.setitimer(signal.ITIMER_REAL, seconds * 15, 5.0)
     try:
         yield
     finally:
+        signal.setitimer(signal.ITIMER_PROF, 0)
         signal.setitimer(signal.ITIMER_REAL, 0)
-        signal.signal(signal.SIGALRM, old)
+        signal.signal(signal.SIGPROF, old_prof)
+        signal.signal(signal.SIGALRM, old_alrm)
